@@ -235,7 +235,7 @@ def run_kinds(acc, i, n, tier):
 
 def expected_wrapper_order(outer, inner, embedded):
     """outer/inner: lists of (type, tag); returns list of tags outermost first."""
-    uniq = {'U1': True, 'U2': True, 'V': False, 'U1s': True}
+    uniq = {'U1': True, 'U2': True, 'V': False, 'U1s': True, 'Vi': False}
     out = []
     for t, tag in outer + (inner if embedded else []):
         if uniq[t] and any(x[0] == t for x in out):
@@ -292,10 +292,17 @@ def run_wrappers(acc, i, n, tier):
         # a subclass of U1: a unique type of its own
         pass
     CLS['U1s'] = U1s
+
+    class Vi(mkcls('Vi', True)):
+        # unique by class default, switched off for this instance (a constructor flag)
+        def __init__(self, tag):
+            self.tag = tag
+            self.unique = False
+    CLS['Vi'] = Vi
     maxlen = 3 if tier == 'quick' else 4
     stacks = [()]
     for L in range(1, maxlen + 1):
-        stacks += list(itertools.product(('U1', 'U2', 'V', 'U1s'), repeat=L))
+        stacks += list(itertools.product(('U1', 'U2', 'V', 'U1s', 'Vi'), repeat=L))
     # no duplicate unique type inside one list (not generated, see C03)
     stacks = [s for s in stacks if s.count('U1') <= 1 and s.count('U2') <= 1 and s.count('U1s') <= 1]
     k = 0
@@ -479,9 +486,19 @@ def run_reroute(acc, i, n, tier):
 
     class CopyingApp(Application):
         request_type = CopyingRequest
+    from clastic.middleware import GzipMiddleware, HTTPCacheMiddleware
+    from clastic.middleware.stats import StatsMiddleware
+    from clastic.middleware.cookie import SignedCookieMiddleware
+
+    class BundledApp(Application):
+        # the stock middlewares in front of the rerouting route: the reroute passes through them untouched
+        def __init__(self, routes, middlewares=()):
+            Application.__init__(self, routes, middlewares=list(middlewares) + [StatsMiddleware(), GzipMiddleware(),
+                                                                                HTTPCacheMiddleware(),
+                                                                                SignedCookieMiddleware(secret_key=b'c13')])
     for tname, (target, want_status, want_body) in sorted(targets.items()):
         for how in ('endpoint', 'raised', 'raised-in-middleware'):
-          for App in (Application, CopyingApp):
+          for App in (Application, CopyingApp, BundledApp):
             for method in ('GET', 'POST', 'HEAD'):
                 k += 1
                 if k % n != i:
@@ -508,10 +525,10 @@ def run_reroute(acc, i, n, tier):
                 acc.add('nontrivial')
                 acc.outcome('reroute|%s|%s|%s' % (tname, how, method))
                 case = {'part': 'reroute', 'target': tname, 'how': how, 'method': method,
-                        'request_type': 'copying' if App is CopyingApp else 'stock'}
+                        'request_type': 'copying' if App is CopyingApp else ('stock+bundled-middlewares' if App is BundledApp else 'stock')}
 
                 def bad(kind, msg):
-                    acc.violation('C13:reroute-%s:%s:%s%s' % (kind, tname, how, ':copying-request-type' if App is CopyingApp else ''), '%s; %r -> %s %r' % (msg, case, res.status, res.raised), case)
+                    acc.violation('C13:reroute-%s:%s:%s%s' % (kind, tname, how, ':copying-request-type' if App is CopyingApp else (':bundled-middlewares' if App is BundledApp else '')), '%s; %r -> %s %r' % (msg, case, res.status, res.raised), case)
                 if res.raised is not None:
                     bad('raised', 'application raised %r' % (res.raised,))
                     continue
